@@ -4,7 +4,8 @@
 //
 // Emits StateMachine.v (validStates, validTransitions, validateClaimInvariant as tables), Consts.v
 // (string / integer constants the model transcribes) and Skeleton.v (per function: the lock / load /
-// write / raw-file-system / call effects in source order, closures passed to withLock nested).
+// write / raw-file-system / call effects in source order, closures passed to withLock nested) and
+// ReplayGen.v (replay_ir.go: replayEvents / applyTombstone as the statement IR of bridge/ReplayIR.v).
 // Only go/parser + go/ast are used; anything outside the accepted fragment is a fatal error.
 package main
 
@@ -798,4 +799,5 @@ func main() {
 	write("StateMachine.v", sm.String())
 	write("Consts.v", cs.String())
 	write("Skeleton.v", sk.String())
+	write("ReplayGen.v", genReplay(fset, files)) // replay_ir.go
 }
